@@ -53,11 +53,11 @@ def evaluate(m, plain, pos, err, mark='LATEXXXERROR'):
         for f, _, _ in docgen.flows_of(m):
             for a in f:
                 if a[0] == 'w' and a[3] == 'word':
-                    for mt in re.finditer(re.escape(a[1]), plain):
-                        got = pos[mt.start():mt.end()]
-                        want = list(range(a[2] + 1, a[2] + 1 + len(a[1])))
-                        if got != want:
-                            v.c02.append({'word': a[1], 'expected': want, 'actual': got})
+                    occ = [pos[mt.start():mt.end()] for mt in re.finditer(re.escape(a[1]), plain)]
+                    want = list(range(a[2] + 1, a[2] + 1 + len(a[1])))
+                    # further occurrences may be generated text (a stored macro recalled later): one position for all characters
+                    if occ and (want not in occ or any(g != want and len(set(g)) != 1 for g in occ)):
+                        v.c02.append({'word': a[1], 'expected': want, 'actual': occ})
         return v
     v.aligned = True
     nw = ng = 0
